@@ -116,6 +116,9 @@ class Prop(object):
 
         def sig(key, typ, subj, extra=b'', unhashed_extra=b''):
             hashed = rsig.sp_created(now()) + rsig.sp_issuer_fpr(rkeys.fingerprint(key)) + extra
+            if shape.get('nonminimal'):
+                # legal but non-minimal encodings another producer may use: five-octet subpacket length, a second flag octet
+                hashed += wire.subpacket(26, b'https://example.org/p', width=5) + wire.subpacket(30, b'\x01\x00')
             return wire.packet(2, rsig.make(key, typ, 8, hashed, rsig.sp_issuer(rkeys.keyid(key)) + unhashed_extra, subj))
         trust = wire.packet(12, b'\x06\x00') if shape.get('trust') else b''
         out = bytearray()
@@ -178,7 +181,7 @@ class Prop(object):
             if 'subrev' in extras and case['nsub'] == 0:
                 extras = ('direct',)
             shape = dict(nuid=case['nuid'], nsub=case['nsub'], secret=case['secret'], uat=uat, nself=nself, third=third, revoke_uid=revoke_uid, extras=extras,
-                         same_time=same_time, trust=trust, prim='ed25519a' if idx % 3 else 'ecdsa_p256a')
+                         same_time=same_time, trust=trust, prim='ed25519a' if idx % 3 else 'ecdsa_p256a', nonminimal=(idx % 4 == 1))
             r.states += 1
             blob, known = self.write_key(shape)
             probs = []
